@@ -703,6 +703,11 @@ def compare_option(base: dict, o: dict, expect: Optional[list]) -> List[Finding]
             out.append(Finding('empty', 'with %s the program is %s, with the default options it is %s'
                                % (tag, obs['status'], base['status'])))
         return out
+    if obs['chans'] == 'nonuniform' and o.get('pf11_any'):
+        # PF-11 under a channel-changing (linear) transformation: the overwritten channel is added after the
+        # transformation on some pieces only
+        out.append(Finding('channels', 'with %s the played pieces define different channel sets' % tag, known='PF-11'))
+        return out
     if obs['dur'] != base['dur']:
         out.append(Finding('duration', 'with %s the program lasts %s instead of %s' % (tag, obs['dur'], base['dur'])))
     if not (obs['dur'] == obs.get('wfdur') == obs['pieces']):
